@@ -208,6 +208,7 @@ func (r *Router) Start() {
 	// Any incoming connection waits for the remote server identity
 	// and will create a new handling routine.
 	err := r.host.Listen(func(c Conn) {
+		defer verifC10Point("accept:exit", r, c)
 		dst, err := r.receiveServerIdentity(c)
 		if err != nil {
 			if !strings.Contains(err.Error(), "EOF") {
@@ -445,7 +446,9 @@ func (r *Router) handleConn(remote *ServerIdentity, c Conn) {
 		r.wg.Done()
 		r.removeConnection(remote, c)
 		log.Lvl4("onet close", c.Remote(), "rx", rx, "tx", tx)
+		verifC10Point("handle:exit", r, c)
 	}()
+	verifC10Point("handle:start", r, c)
 	address := c.Remote()
 	log.Lvl3(r.address, "Handling new connection from", remote.Address)
 	for {
